@@ -27,8 +27,19 @@ type PropConfig struct {
 	// MapOrder: in the named functions, a range over a map whose body modifies one of the heaps
 	// carries the obligation len(map) <= 1 (iteration order must not be observable)
 	MapOrder *MapOrder `json:"map_order"`
+	// GuardedBy: stores to fields of Struct need its RWMutex field Lock write-held (ghost wheld), except in
+	// the exempt functions (constructors, options)
+	GuardedBy []GuardedBy `json:"guarded_by"`
 	// Uses: clauses tagged with these properties are assumed in this property's run (imports)
 	Uses []string `json:"uses"`
+}
+
+type GuardedBy struct {
+	Struct       string   `json:"struct"`
+	Lock         string   `json:"lock"`
+	Exempt       []string `json:"exempt_functions"`
+	Reachable    []string `json:"reachable_from"` // only functions statically reachable from these (empty: all)
+	ExemptFields []string `json:"exempt_fields"`
 }
 
 type MapOrder struct {
@@ -134,6 +145,22 @@ func (c *Ctx) functionSet(prop string, cfg *PropConfig) (fns []*ssa.Function, sw
 			}
 		}
 	}
+	for _, gb := range cfg.GuardedBy {
+		for _, fn := range all {
+			if c.gbExempt(gb, c.keyOf(fn)) {
+				continue
+			}
+			for _, b := range fn.Blocks {
+				for _, in := range b.Instrs {
+					if st, ok := in.(*ssa.Store); ok {
+						if fa, ok := st.Addr.(*ssa.FieldAddr); ok && typeKey(deref(fa.X.Type())) == gb.Struct {
+							set[fn] = true
+						}
+					}
+				}
+			}
+		}
+	}
 	if cfg.MapOrder != nil {
 		for _, fn := range all {
 			for _, pat := range cfg.MapOrder.Functions {
@@ -196,6 +223,52 @@ func (c *Ctx) fnByKey(k string) *ssa.Function {
 		}
 	}
 	return nil
+}
+
+var gbReach = map[string]map[string]bool{}
+
+func (c *Ctx) gbScope(gb GuardedBy) map[string]bool {
+	k := gb.Struct + "|" + strings.Join(gb.Reachable, ",")
+	if m, ok := gbReach[k]; ok {
+		return m
+	}
+	m := map[string]bool{}
+	var work []*ssa.Function
+	for _, fn := range c.allFunctions() {
+		for _, pat := range gb.Reachable {
+			if globMatch(pat, c.keyOf(fn)) {
+				work = append(work, fn)
+			}
+		}
+	}
+	seen := map[*ssa.Function]bool{}
+	for len(work) > 0 {
+		fn := work[len(work)-1]
+		work = work[:len(work)-1]
+		if seen[fn] {
+			continue
+		}
+		seen[fn] = true
+		m[c.keyOf(fn)] = true
+		work = append(work, c.Frames.fb.calls[fn]...)
+		for _, a := range fn.AnonFuncs {
+			work = append(work, a)
+		}
+	}
+	gbReach[k] = m
+	return m
+}
+
+func (c *Ctx) gbExempt(gb GuardedBy, key string) bool {
+	for _, pat := range gb.Exempt {
+		if globMatch(pat, key) {
+			return true
+		}
+	}
+	if len(gb.Reachable) > 0 && !c.gbScope(gb)[key] {
+		return true
+	}
+	return false
 }
 
 func oblRelevant(o *Obl, prop string, inSweep bool) bool {
@@ -316,7 +389,13 @@ func cmdCheck(args []string) int {
 				}
 			}
 		}
-		g, err := c.genWith(fn, *prop, forb, oh)
+		var gbs []GuardedBy
+		for _, gb := range cfg.GuardedBy {
+			if !c.gbExempt(gb, c.keyOf(fn)) {
+				gbs = append(gbs, gb)
+			}
+		}
+		g, err := c.genWith(fn, *prop, forb, oh, gbs)
 		if err != nil {
 			genErrs = append(genErrs, err.Error())
 			continue
